@@ -1,0 +1,36 @@
+// Copyright 2026 The Go Authors. All rights reserved.
+// Use of this source code is governed by a BSD-style
+// license that can be found in the LICENSE file.
+
+//go:build verif && !(go1.27 && !http2legacy)
+
+package http2
+
+import "sync"
+
+// wmuMutex is a mutual-exclusion lock whose waiters block on a channel
+// operation instead of a sync.Mutex.
+//
+// ClientConn.wmu is held across writes to the net.Conn. When such a write
+// blocks (the peer is not reading), every other goroutine that needs wmu waits
+// for it. A goroutine waiting for a sync.Mutex is not "durably blocked" for
+// testing/synctest, so a simulated connection with write back-pressure could
+// never quiesce; a goroutine blocked on a channel is. Semantics are otherwise
+// those of sync.Mutex (no reentrancy, Unlock of an unlocked lock is an error:
+// it blocks forever here instead of panicking).
+type wmuMutex struct {
+	once sync.Once
+	ch   chan struct{}
+}
+
+func (m *wmuMutex) init() { m.once.Do(func() { m.ch = make(chan struct{}, 1) }) }
+
+func (m *wmuMutex) Lock() {
+	m.init()
+	m.ch <- struct{}{}
+}
+
+func (m *wmuMutex) Unlock() {
+	m.init()
+	<-m.ch
+}
